@@ -544,7 +544,7 @@ func genCase(r *rand.Rand, id int) Case {
 		seen[k] = true
 		s := DBSeries{Fp: r.Uint64(), Type: []int64{2, 2, 2, 0, 1}[r.Intn(5)], Labels: l}
 		days := map[int64]bool{}
-		// samples every 1..15 s from 6 min before the start, off the whole seconds (never on a window bound);
+		// samples every 1..15 s from 6 min before the start, half of the series on the whole seconds (on window bounds);
 		// with churn: the series lives today, yesterday / two days ago, or on all of them
 		shifts := []int64{0}
 		if churn {
@@ -554,6 +554,9 @@ func genCase(r *rand.Rand, id int) Case {
 		v := int64(r.Intn(50))
 		for _, sh := range shifts {
 			t := start - sh - 360000 + int64(r.Intn(20000)) + 500
+			if r.Intn(2) == 0 {
+				t -= t % 1000 // on the whole seconds: samples exactly on window bounds [T - range, T], [T - 5 min, T] (fix f155c1f)
+			}
 			for t <= end-sh {
 				if r.Intn(10) != 0 {
 					c.DB.Samples = append(c.DB.Samples, DBSample{Fp: s.Fp, Type: s.Type, TsNs: t * 1000000, Value: v})
